@@ -104,7 +104,12 @@ func init() {
 		if n <= 0 {
 			panic(pathEnd{"infeasible", "Choose(0)"})
 		}
-		c := w.chooseN(n, "choose:"+label)
+		var c int
+		if fc, ok := w.forcedChoice(label); ok && fc < n {
+			c = fc
+		} else {
+			c = w.chooseN(n, "choose:"+label)
+		}
 		if n > w.res.Chooses[label] {
 			w.res.Chooses[label] = n
 		}
@@ -209,6 +214,10 @@ func init() {
 			l = v.([]*Term)
 		}
 		w.ext["prefer"] = append(l[:len(l):len(l)], args[0].(*Term))
+		return nil
+	})
+	reg("verifnd.FixRandom", func(w *World, t *Thread, fr *frame, fn *ssa.Function, args []Value) Value {
+		w.ext["fixrandom"] = args[0].(*Term)
 		return nil
 	})
 	reg("verifnd.Thorough", func(w *World, t *Thread, fr *frame, fn *ssa.Function, args []Value) Value {
